@@ -462,7 +462,7 @@ func (e *exec) do(op *Op) {
 				return
 			}
 		case "write":
-			if nd.Kind == "cache" && !e.mayChangeView(nd.Parent, op.N) {
+			if nd.Kind == "cache" && !e.mayChangeView(e.landing(nd.Parent), op.N) {
 				st.C("skipped_outside_usage_contract", 1)
 				return
 			}
@@ -637,6 +637,14 @@ func (e *exec) do(op *Op) {
 			}
 			e.markAllWeak()
 		} else if nd.Kind == "multi" {
+			for _, it := range e.iters {
+				if !it.closed && it.node == op.N {
+					// MemDB iterators read values lazily: writing the substores' bases while one is open is outside
+					// what the base store supports
+					st.C("skipped_outside_usage_contract", 1)
+					return
+				}
+			}
 			for s := range e.mcaches[op.N] {
 				e.mcaches[op.N][s].write()
 			}
